@@ -12,7 +12,7 @@ Oracle : sequence equality per group (type aware: list vs tuple vs array, int vs
 """
 import random
 
-from ..common import Check, Outcome, bootstrap, norm
+from ..common import Check, Outcome, bootstrap, norm, with_prelude, prelude_tags, shrink_prelude, PRELUDE_TAGS
 from .. import gen, progs, model
 from ..muxmon import lifetimes
 
@@ -39,10 +39,13 @@ class C01(Check):
                'rxsci/operators/filter.py', 'rxsci/operators/first.py', 'rxsci/operators/last.py', 'rxsci/operators/take.py', 'rxsci/operators/tee_map.py',
                'rxsci/operators/flat_map.py', 'rxsci/operators/do_action.py', 'rxsci/operators/assert_.py', 'rxsci/operators/progress.py',
                'rxsci/operators/distinct_until_changed.py', 'rxsci/data/batch.py', 'rxsci/data/clip.py', 'rxsci/data/fill_none.py', 'rxsci/data/to_list.py', 'rxsci/data/to_array.py']
-    REQUIRED_TAGS = DUAL + ['zip', 'merge', 'combine_latest', 'group', 'multiplex', 'roll', 'split', 'len>=3', 'truthy-predicates', 'many-groups', 'scale', 'assert-fails']
+    REQUIRED_TAGS = DUAL + ['zip', 'merge', 'combine_latest', 'group', 'multiplex', 'roll', 'split', 'len>=3', 'truthy-predicates', 'many-groups', 'scale', 'assert-fails'] + PRELUDE_TAGS
     REQUIRED_OBSERVED = ['groups_compared', 'items_compared']
 
     def generate(self, rng, tier, shard, nshards):
+        return with_prelude(self._generate(rng, tier, shard, nshards), rng, size=lambda c: sum(len(x) for x in c['seqs']))
+
+    def _generate(self, rng, tier, shard, nshards):
         n = 6000 if tier == 'quick' else 10 ** 7
         modes = ['group', 'group', 'group', 'multiplex', 'roll', 'split']
         for k in range(n):
@@ -142,6 +145,8 @@ class C01(Check):
 
         if mode == 'assert-fail':
             return self._eval_assert_fail(case, out)
+        if case.get('prelude') and progs.usable_prelude(prog, case['prelude']):
+            prelude_tags(dict(case, prelude=progs.usable_prelude(prog, case['prelude'])), out)
         if mode == 'group':
             M = 64 if len(seqs) <= 64 else 512
             r = random.Random(case['iseed'])
@@ -150,7 +155,7 @@ class C01(Check):
             P = [['map', 'div:%d' % M]] + prog         # the same decoding prefix on both sides
             lifetimes_in = [(g, [v * M + g for v in xs]) for g, xs in enumerate(seqs) if xs]
             head, tail = [], []
-            snap = progs.run_mux([['group_by', 'mod:%d' % M, P]], items, taps={(0,): (head, tail)})
+            snap = progs.run_mux([['group_by', 'mod:%d' % M, P]], items, taps={(0,): (head, tail)}, prelude=case.get('prelude'))
             group_of = {e[1]: e[2] % M for e in head if e[0] == 'N'}
             got = {}
             for e in tail:
@@ -164,7 +169,7 @@ class C01(Check):
             # to the subscription).  Not asked of pipelines holding a tee_map: it publishes its source (RxPY
             # publish()/connect()), so once run, the plain form and the multiplexed form alike only complete.
             again = Snap() if 'tee_map' not in names else None
-            snap = progs.run_mux(prog, items, again=again)
+            snap = progs.run_mux(prog, items, again=again, prelude=case.get('prelude'))
             units = [(0, prog, items, snap.out)]
             if again is not None:
                 units.append(('second subscription of the same observable', prog, items, again.out))
@@ -177,7 +182,7 @@ class C01(Check):
             node = list(case['ctx'])
             node[-1] = prog
             head, tail = [], []
-            snap = progs.run_mux([node], items, taps={(0,): (head, tail)})
+            snap = progs.run_mux([node], items, taps={(0,): (head, tail)}, prelude=case.get('prelude'))
             hl, odd1 = lifetimes(head)
             tl, odd2 = lifetimes(tail)
             if snap.err is None and (odd1 or odd2 or len(hl) != len(tl)):
@@ -282,6 +287,7 @@ class C01(Check):
         return out
 
     def shrink(self, case):
+        yield from shrink_prelude(case)
         from .c11 import shrink_prog
         for g, xs in enumerate(case['seqs']):
             for k in range(len(xs)):
